@@ -13,6 +13,7 @@ import (
 
 // A Clause is one requires/ensures/invariant/... line.
 type Clause struct {
+	More  []*Spec // further components of a lexicographic decreases clause
 	Label string
 	Props []string // explicit attribution; empty => the block's props
 	Expr  *Spec
@@ -176,7 +177,7 @@ func (cs *Contracts) LoadLines(pkg string, lines []string, wheres []string) erro
 		if strings.HasPrefix(head, "callers-only[") {
 			head = "callers-only"
 		}
-		for _, kw := range []string{"requires", "ensures"} {
+		for _, kw := range []string{"requires", "ensures", "decreases"} {
 			if strings.HasPrefix(head, kw+"[") {
 				rest = strings.TrimSpace(strings.TrimPrefix(line, kw))
 				head = kw
@@ -242,9 +243,22 @@ func (cs *Contracts) LoadLines(pkg string, lines []string, wheres []string) erro
 				cur.Ensures = append(cur.Ensures, c)
 			}
 		case "decreases":
-			c, err := parseClause(head, rest, where)
+			attr := ""
+			if strings.HasPrefix(rest, "[") {
+				attr = rest[:strings.Index(rest, "]")+1]
+				rest = strings.TrimSpace(rest[strings.Index(rest, "]")+1:])
+			}
+			parts := splitTopLevel(rest, ',')
+			c, err := parseClause(head+attr, strings.TrimSpace(parts[0]), where)
 			if err != nil {
 				return err
+			}
+			for _, p := range parts[1:] {
+				e, err := ParseSpec(strings.TrimSpace(p))
+				if err != nil {
+					return fmt.Errorf("%s: %v", where, err)
+				}
+				c.More = append(c.More, e)
 			}
 			cur.Decreases = c
 		case "modifies":
